@@ -1,6 +1,7 @@
 package main
 
 import (
+	"go/token"
 	"go/types"
 	"strings"
 
@@ -288,6 +289,143 @@ func runC02(c *Ctx) {
 			c.check(good, key, instrPos(in), "close case re-checks the reply channel and returns the delivered reply",
 				"the re-check in the close case does not return the received reply")
 		})
+	}
+
+	// ---------------------------------------------------------------- R6
+	c.rule("R6", "after a successful write every path to a return consults the reply channel (no early exit between send and wait)", 3)
+	for _, f := range fns {
+		// functions that contain a reply wait: blocking select with a receive on a reply channel
+		var replyCh ssa.Value
+		eachInstr(f, func(in ssa.Instruction) {
+			if sel, ok := in.(*ssa.Select); ok && sel.Blocking {
+				for _, st := range sel.States {
+					if st.Dir == types.RecvOnly && isReplyChanType(st.Chan.Type()) {
+						replyCh = st.Chan
+					}
+				}
+			}
+		})
+		if replyCh == nil {
+			continue
+		}
+		consults := func(x ssa.Instruction) bool {
+			sel, ok := x.(*ssa.Select)
+			if !ok {
+				return false
+			}
+			for _, st := range sel.States {
+				if st.Dir == types.RecvOnly && st.Chan == replyCh {
+					return true
+				}
+			}
+			return false
+		}
+		fn := f
+		eachInstr(f, func(in ssa.Instruction) {
+			ci, ok := in.(*ssa.Call)
+			if !ok {
+				return
+			}
+			// a write of the query: direct Write on the connection or a call of a pure writer helper of this package
+			isW := false
+			if ci.Call.IsInvoke() && ci.Call.Method.Name() == "Write" {
+				if k, ok := loadedField(ci.Call.Value); ok && (strings.HasSuffix(k, "TraditionalDnsConn.c") || strings.HasSuffix(k, "reusableConn.c")) {
+					isW = true
+				}
+			}
+			if sc := staticCallee(ci); sc != nil && sc.Pkg == fn.Pkg && sc != fn {
+				eachInstr(sc, func(y ssa.Instruction) {
+					if c2, ok := y.(*ssa.Call); ok && c2.Call.IsInvoke() && c2.Call.Method.Name() == "Write" {
+						if k, ok := loadedField(c2.Call.Value); ok && strings.HasSuffix(k, "TraditionalDnsConn.c") {
+							isW = true
+						}
+					}
+				})
+			}
+			if !isW {
+				return
+			}
+			// the success edge: err == nil
+			var errV ssa.Value
+			if ci.Type().String() == "error" {
+				errV = ci
+			}
+			for _, r := range referrers(ci) {
+				if ex, ok := r.(*ssa.Extract); ok && ex.Type().String() == "error" {
+					errV = ex
+				}
+			}
+			key := "after-write@" + funcName(fn)
+			if errV == nil {
+				c.undecided(key, instrPos(in), "the write's error is not examined")
+				return
+			}
+			checked := false
+			for _, r := range referrers(errV) {
+				bo, ok := r.(*ssa.BinOp)
+				if !ok || !isNilConst(bo.Y) {
+					continue
+				}
+				for _, r2 := range referrers(bo) {
+					iff, ok := r2.(*ssa.If)
+					if !ok {
+						continue
+					}
+					okBlk := succOnTruth(iff, bo.Op == token.EQL)
+					checked = true
+					if off, leak := reachFromBlock(okBlk, isReturn, consults); leak {
+						c.fail(key, instrPos(off), "a return is reachable after the query was written without looking at the reply channel: a reply that was already delivered (and the error that follows it) makes the exchange fail although the answer arrived in time")
+					} else {
+						c.ok(key, instrPos(in), "every exit after a successful write passes the wait on the reply channel")
+					}
+				}
+			}
+			if !checked {
+				c.undecided(key, instrPos(in), "no success branch of the write found")
+			}
+		})
+	}
+
+	// ---------------------------------------------------------------- R7
+	c.rule("R7", "the single waiter slot of a non-pipelined connection is cleared only by the reader that consumed the reply (or under an identity check)", 1)
+	{
+		slot := relTransport + ".reusableConn.waitingResp"
+		n := 0
+		for _, w := range p.whoWrites().byField[slot] {
+			if w.Kind != "store" || w.Val == nil || !isNilConst(w.Val) {
+				continue
+			}
+			if fa, ok := w.Instr.(*ssa.Store).Addr.(*ssa.FieldAddr); ok {
+				if _, isAlloc := fa.X.(*ssa.Alloc); isAlloc {
+					continue
+				}
+			}
+			n++
+			key := "clear-waiter@" + funcName(w.Fn)
+			// the reader: a successful frame read dominates the clear
+			reader := false
+			eachInstr(w.Fn, func(x ssa.Instruction) {
+				if ci, ok := x.(*ssa.Call); ok && callName(ci) == "pkg/dnsutils.ReadRawMsgFromTCP" && instrDominates(x, w.Instr) {
+					reader = true
+				}
+			})
+			identity := false
+			for _, g := range guardsOfInstr(w.Instr) {
+				if cm, ok := g.asCmp(); ok && cm.Op == token.EQL && !isNilConst(cm.Y) {
+					if k, ok := loadedField(cm.X); ok && k == slot {
+						identity = true
+					}
+					if k, ok := loadedField(cm.Y); ok && k == slot {
+						identity = true
+					}
+				}
+			}
+			c.check(reader || identity, key, instrPos(w.Instr), "cleared by the reader after it read the reply",
+				"the waiter slot is cleared outside the reader without checking that it still holds the clearing caller's own channel: a cancelled caller wipes the registration of the next caller on the same connection, whose reply is then dropped as unexpected")
+		}
+		if n == 0 {
+			c.anchorMissing("clearing store of reusableConn.waitingResp")
+		}
 	}
 
 	// ---------------------------------------------------------------- R5
